@@ -455,7 +455,16 @@ class Frame(object):
 class Machine(object):
     """Big-step evaluator.  `events` records facts the callers use to name clauses (e.g. a bare return was executed)."""
 
-    def __init__(self, world, max_steps=600, max_depth=10, max_calls=10 ** 9):
+    def __init__(self, world, max_steps=600, max_depth=10, max_calls=10 ** 9, logic='strict', where_effects=False):
+        # logic: how the operands of and/or are evaluated.  The property texts do not fix it (OAL does not say whether the right
+        # operand is evaluated when the left one settles the outcome), therefore
+        #   'strict' (C04, C15)  accepts a program only when both readings agree: both operands are evaluated and neither
+        #                        has a side effect;
+        #   'eager' / 'short'    (C08, which only relates the case variants of one program to each other) evaluate both
+        #                        operands / skip the right operand when the left one settles the outcome, side effects allowed.
+        # where_effects: allow side effects while a where clause is evaluated (once per candidate instance, in order), except
+        #                creating / deleting instances of the class that is being selected.
+        self.logic, self.where_effects = logic, where_effects
         self.max_calls = max_calls
         self.calls = 0
         self.w = world
@@ -466,6 +475,7 @@ class Machine(object):
         self.depth = 0
         self.events = set()
         self.guard = 0          # > 0 while a where clause or an operand of and/or is evaluated: no side effects there
+        self.selecting = []     # classes whose instances are being filtered by a where clause (where_effects: they must not change)
 
     # -- entry points ------------------------------------------------------------------------------------------
     def run_body(self, body, params=None, this=None, derived=None):
@@ -623,11 +633,15 @@ class Machine(object):
             raise _Stop()
         elif t == 'create':
             self.mutating()
+            if s[2] in self.selecting:
+                raise OutOfDomain('instance created while the instances of its class are being selected')
             row = self.w.create(s[2])
             if s[1]:
                 self.bind(fr, s[1], row)
         elif t == 'delete':
             self.mutating()
+            if self.handle(fr, s[1]).cls in self.selecting:
+                raise OutOfDomain('instance deleted while the instances of its class are being selected')
             self.w.delete(self.handle(fr, s[1]))
         elif t in ('relate', 'unrelate'):
             x, y = self.handle(fr, s[1]), self.handle(fr, s[2])
@@ -662,12 +676,15 @@ class Machine(object):
             if where is not None:
                 saved = fr.selected
                 fr.selected = r
-                self.guard += 1
+                guarded = 0 if self.where_effects else 1
+                self.guard += guarded
+                self.selecting.append(r.cls)
                 try:
                     ok = self.truth(where, fr)
                 finally:
                     fr.selected = saved
-                    self.guard -= 1
+                    self.guard -= guarded
+                    self.selecting.pop()
                 if not ok:
                     continue
             out.append(r)
@@ -726,6 +743,11 @@ class Machine(object):
             return row.vals[a.name]
         if t == 'un':
             return self.unary(e[1], self.expr(e[2], fr))
+        if t == 'bin' and e[1] in ('and', 'or') and self.logic != 'strict':
+            left = self.expr(e[2], fr)
+            if self.logic == 'short' and isinstance(left, bool) and left == (e[1] == 'or'):
+                return left
+            return self.binary(e[1], left, self.expr(e[3], fr))
         if t == 'bin':
             logic = e[1] in ('and', 'or')
             self.guard += logic
